@@ -3211,7 +3211,13 @@ def import_private_key(
         except UnicodeEncodeError:
             raise KeyImportError('Invalid encoding for key') from None
 
-    key, _ = _decode_private(data, passphrase, unsafe_skip_rsa_key_validation)
+    try:
+        key, _ = _decode_private(data, passphrase, unsafe_skip_rsa_key_validation)
+    except (KeyImportError, KeyEncryptionError):
+        raise
+    except (ValueError, OverflowError) as exc:
+        # impossible key parameters reported by the crypto back end
+        raise KeyImportError(f'Invalid key data: {exc}') from None
 
     if key:
         return key
@@ -3239,7 +3245,13 @@ def import_public_key(data: BytesOrStr) -> SSHKey:
         except UnicodeEncodeError:
             raise KeyImportError('Invalid encoding for key') from None
 
-    key, _ = _decode_public(data)
+    try:
+        key, _ = _decode_public(data)
+    except (KeyImportError, KeyEncryptionError):
+        raise
+    except (ValueError, OverflowError) as exc:
+        # impossible key parameters reported by the crypto back end
+        raise KeyImportError(f'Invalid key data: {exc}') from None
 
     if key:
         return key
@@ -3267,7 +3279,13 @@ def import_certificate(data: BytesOrStr) -> SSHCertificate:
         except UnicodeEncodeError:
             raise KeyImportError('Invalid encoding for key') from None
 
-    cert, _ = _decode_certificate(data)
+    try:
+        cert, _ = _decode_certificate(data)
+    except (KeyImportError, KeyEncryptionError):
+        raise
+    except (ValueError, OverflowError) as exc:
+        # impossible key parameters reported by the crypto back end
+        raise KeyImportError(f'Invalid key data: {exc}') from None
 
     if cert:
         return cert
